@@ -60,6 +60,70 @@ CHECKS = {
     ),
 }
 
+def _trav(pid, what, extra=""):
+    return dict(
+        category="model_checking",
+        technique="solver-driven exploration of the real traversal coroutines (schedules, outcomes, pool contents as z3 variables) + trace monitor",
+        text=(
+            "Every path is a complete run of the real TestGraph.traverse_object_trees coroutines of all workers (with traverse_node, reverse_node, "
+            "traverse_terminal_node, lazy parse_paths_to_object_roots, TestNode run/clean/rerun decisions, pick/drop registers, scan/sync_states, "
+            "pull_locations and the real TestRunner.run_test_node) stepped by a deterministic scheduler. Which suspended worker continues, the outcome "
+            "of every execution (subject to a z3 budget constraint on non-passing outcomes) and the initial content of every state pool are solver "
+            "variables; z3 enumerates the feasible values and the decision tree is explored depth first by re-execution on up to 16 processes. "
+            + what + " Violations are replayed with plain values (recorded decisions, no solver) on the same real code before being reported. "
+            "A plan that does not exhaust its tree within the time share reports exhaustive=false (bug hunting only for that plan)." + extra
+        ),
+        note=TRAVERSAL_NOTE,
+        design="DESIGN.md §1 " + pid,
+        engine="symx+vsched",
+    )
+
+
+CHECKS.update({
+    "C01": _trav("C01", "Monitor: at every start, each required non-root state of a non-permanent object is in the worker's own pool or in a pool the test is instructed and permitted to read, unless its producer (or the object's creation) was attempted in this run and did not pass; evaluated on the store model."),
+    "C02": _trav("C02", "Monitor: every coroutine returns without exception, no livelock (all live workers backing off with nobody running) and no step-bound overrun; every selected compatible test was executed and no result is left UNKNOWN; a dry run executes nothing and makes no state request. Outcomes include 'never reported'."),
+    "C03": _trav("C03", "Monitor: executions grouped by worker-invariant name and reuse scope (global / per swarm / per worker from pool_scope and spawner) never exceed max(1, max_tries); a setup test whose states were all found at its first examination is not executed in that scope; clone sources and flat tests never execute."),
+    "C04": _trav("C04", "Monitor: executions of one test (the two creation steps of an object counted as one) by different workers of a scope overlap at most max_concurrent_tries times; no worker enters between the two creation steps of another. Choice-mode part only: the back-off budget cannot expire within K polls; the budget arithmetic in virtual time is not covered yet."),
+    "C05": _trav("C05", "Monitor: every unset request addresses a state marked removable (unset_mode f.), is issued while no execution needing or producing it runs and no dependant starts afterwards; with pool_filter=reuse no copy (get) request is made while backing out."),
+    "C08": _trav("C08", "Monitor: at every start the executing worker is the node's net with its own nets_* parameters and is not excluded by restrictions; for each required state the named sources are exactly the shared pool plus the workers that produced it in this run (PASS/WARN), with those workers' access parameters."),
+    "C06": dict(
+        category="other",
+        technique="structural oracle over graphs built by the real parser: concrete menu, solver-explored lazy expansions, symbolic-edge family",
+        text=("(a) A structural oracle (acyclic, one starting node, all reachable, dependencies recorded on both ends with equal object sets, unique identities, exactly one "
+              "producer per required state for the same worker and variant, one net first, vms as named, clone sources not runnable) is evaluated on graphs parsed by the real code "
+              "for a menu of selections (eager, worker order permuted, multi-variant vm) and on every lazily expanded graph reached under solver-chosen schedules. "
+              "(b) Real nodes stripped of their edges get every forward edge as a solver variable via descend_from_node, then the real parse_shared_root_from_object_roots; "
+              "exhaustive over all 2^(K choose 2) shapes, K=4 (5)."),
+        note="Selections are a concrete menu of the shipped suite (Cartesian parser not symbolically executable): 'for all restriction strings' is covered only for that menu. Trusted: structure.py oracle.",
+        design="DESIGN.md §1 C06", engine="symx+vsched"),
+    "C09": dict(
+        category="other",
+        technique="lazy-vs-eager graph comparison under solver-explored schedules + bridging protocol explored over solver-chosen orders",
+        text=("(a) every lazily expanded graph reached under solver-chosen schedules is compared node by node with the eagerly parsed graph (dependencies, objects; every selected compatible test expanded by some worker); "
+              "(b) worker copies: symmetric bridging, four distinct registers shared by all copies; (c) the bridging protocol on real equivalent nodes with solver-chosen arrival order, "
+              "bridge-list order and interleaved visit registrations for both call-site protocols (exhaustive for 3 (4) copies); (d) parsing twice gives the same graph."),
+        note="Selections from a concrete menu (L1). Trusted: structure.py signatures.",
+        design="DESIGN.md §1 C09", engine="symx+vsched"),
+    "C10": dict(
+        category="other",
+        technique="symbolic max_tries through the real should_rerun with a z3 validity query per path; solver-enumerated verdict inputs; traversal monitors",
+        text=("(a) the real TestNode.should_rerun on real parsed nodes (stateless leaf, stateful setup with a bridged copy) with max_tries a symbolic integer in [-2,6] (one path covers an interval), "
+              "solver-chosen status histories split between the node and its bridged copy, rerun/stop sets from a menu incl. invalid words, replay on/off, non-integer max_tries; the property's sentence as a "
+              "z3 formula discharged per path (exhaustive). (d) the real all_results_ok against 'every name has an acceptable result' for all result lists up to 3 (4) entries. "
+              "(b) identifiers pairwise distinct and each execution's own outcome recorded, (c) replay of previous results with symbolic previous statuses: traversal monitors."),
+        note="Decision table overwrites params/results of real parsed nodes in place. Traversal parts share the C01-C05 trusted base.",
+        design="DESIGN.md §1 C10", engine="symx+vsched"),
+    "C12": dict(
+        category="other",
+        technique="symbolic execution of the real state operations with symbolic mode characters and presence bits against a reference program of the README policy table",
+        text=("The real check/get/set/unset/push/pop_states run against an in-memory backend registered in BACKENDS with both mode letters symbolic characters (a path covers every letter the code does not "
+              "distinguish) and state/root presence per object as solver variables; operation, state kind, addressed type and object, skip_types, readonly image, check_mode, 1..2 vms x 1..2 images "
+              "and sequences of 2 (3) operations are enumerated by the explorer. The README policy table is a reference program over the same symbolic letters; raised exception class, state-changing "
+              "backend calls, get calls and touched objects are compared per path. Exhaustive within the bounds."),
+        note="push/pop are not combined with skip_types/image_readonly (they re-root the iteration and do not evaluate them). Trusted: the reference program, the in-memory backend.",
+        design="DESIGN.md §1 C12"),
+})
+
 NOT_APPLICABLE = {
     "C07": "Both sides of 'parsed edges = edges declared in the configuration' are functions of concrete configuration text through virttest's Cartesian parser (2200 lines of text processing outside /repo) which cannot be executed on symbolic strings within reach; deciding it would be differential testing over enumerated selections, a different technique. See DESIGN.md §2.",
 }
